@@ -41,7 +41,7 @@ ASSUMPTIONS = [
     "numpy astype/tobytes/frombuffer/reshape and msgpack round-trip values of the encoded types",
     "attrs strips the leading underscore of private fields for the init keyword",
 ]
-FLOORS = {"C01.R1": 40, "C01.R2": 16, "C01.R3": 30, "C01.R4": 9, "C01.R5": 8, "C01.R6": 4, "C01.R7": 2}
+FLOORS = {"C01.R9": 3, "C01.R1": 40, "C01.R2": 16, "C01.R3": 30, "C01.R4": 9, "C01.R5": 8, "C01.R6": 4, "C01.R7": 2}
 
 PAIRS = [
     ("mol", 1, "_serialize_mol_v1", "_deserialize_mol_v1"),
@@ -77,6 +77,7 @@ def run(chk):
     chk.call(r5_library, chk)
     chk.call(r6_collection, chk)
     chk.call(r7_empty_shapes, chk)
+    chk.call(r9_reader_sinks, chk)
     # R8: "reads back, under the same key": the record file stores the encoded bytes under the encoded key with the lengths
     # it wrote (block header = len(key), len(value) of exactly the bytes written; get reads that extent) - the clause C02.R4
     # decides for UKVFile.put / map_blocks / get, evaluated under this property's name.
@@ -837,3 +838,67 @@ def r6_collection(chk):
     subs = [x for x in ast.walk(vs.node) if isinstance(x, ast.Subscript) and norm(x.value) == "self" and isinstance(x.ctx, ast.Load)]
     ok = "self.__getitem__" in norm(vs.node) or has_call(vs.node, {"self._value_decoder"}) or (bool(subs) and "self.keys()" in norm(vs.node))
     chk.decide(ok, "C01.R6", f"{vs.key}:decode", vs.where(), "values go through __getitem__", "Collection.values bypasses the decoder")
+
+
+# ---------------------------------------------------------------------------------------------------------------------------
+def r9_reader_sinks(chk):
+    """R1 pairs every stored field with the constructor keyword / method the reader hands it to.  This rule follows the value one step
+    further, into what the reader calls:
+    (a) every keyword the ensemble reader passes to `ConformerEnsemble(...)` is consumed on the branch that call takes (a list of
+        atoms, not of structures): a named parameter is read there, an unnamed one travels in `**kwds` into the base constructor.  A
+        keyword promoted to a named parameter and forwarded in the list-of-structures branch only is silently dropped for every
+        ensemble read from a library (`attrib` comes back as {}).
+    (b) every bond record becomes a bond: `Connectivity.connect` - the method the readers add bonds with, as the MRO resolves it -
+        appends a new bond on every normal path.  A `connect` that returns the existing bond for a pair that is bonded already drops
+        the second record over that pair (the bond sequence changes on read)."""
+    from ..cfg import CFG
+
+    prog = chk.prog
+    ens = prog.cls("molli.chem.ensemble:ConformerEnsemble")
+    init = prog.method(ens, "__init__")
+    rf = prog.func(f"{IO}:_deserialize_ens_v2")
+    chk.analysed(init, rf)
+    calls = [c for c in ast.walk(rf.node) if isinstance(c, ast.Call) and norm(c.func) == "cls" and c.keywords]
+    chk.require(len(calls) == 1, "_deserialize_ens_v2: the constructor call cls(...) was not found")
+    kws = [k.arg for k in calls[0].keywords if k.arg]
+    a = init.node.args
+    named = {x.arg for x in a.posonlyargs + a.args + a.kwonlyargs}
+    has_kwds = a.kwarg is not None
+    # the top-level test that separates "list of structures" from everything else
+    tops = [t for t in init.node.body if isinstance(t, ast.If) and "Structure" in norm(t.test) and "list" in norm(t.test)]
+    chk.require(len(tops) == 1 and tops[0].orelse, "ConformerEnsemble.__init__: the list-of-structures test with an else arm was not found")
+    top = tops[0]
+    after = init.node.body[init.node.body.index(top) + 1:]
+    taken = list(top.orelse) + after
+
+    def reads(stmts, name):
+        return any(isinstance(x, ast.Name) and x.id == name and isinstance(x.ctx, ast.Load) for s_ in stmts for x in ast.walk(s_))
+
+    sup = [c for s_ in top.orelse for c in ast.walk(s_) if isinstance(c, ast.Call) and norm(c.func) == "super().__init__"]
+    fwd = bool(sup) and has_kwds and any(k.arg is None and norm(k.value) == a.kwarg.arg for k in sup[0].keywords)
+    for k in kws:
+        key = f"{init.key}:consumes-reader-keyword:{k}"
+        if k in named:
+            chk.decide(reads(taken, k), "C01.R9", key, init.where(top), f"`{k}` is read on the branch a list of atoms takes",
+                       f"ConformerEnsemble.__init__ names the parameter `{k}` but does not use it on the branch the ensemble reader takes (a list of atoms): the stored {k} of every "
+                       "ensemble read from a .clib is dropped - it reads back as the constructor's default")
+        else:
+            chk.decide(fwd, "C01.R9", key, init.where(sup[0] if sup else top), f"`{k}` travels in **{a.kwarg.arg if a.kwarg else 'kwds'} to the base constructor",
+                       f"the reader passes `{k}=` but ConformerEnsemble.__init__ neither names it nor forwards **kwds on that branch")
+    # (b)
+    conn_cls = prog.cls("molli.chem.bond:Connectivity")
+    cm = prog.method(conn_cls, "connect")
+    chk.require(cm is not None, "Connectivity.connect vanished")
+    chk.analysed(cm)
+    cfg = CFG(cm.node)
+    adds = {n.id for n in cfg.nodes if n.kind in ("stmt", "test") and n.ast is not None and any(isinstance(c, ast.Call) and (norm(c.func) in ("self.append_bond", "self._bonds.append"))
+                                                                                                      for c in ast.walk(n.ast.test if n.kind == "test" else n.ast))}
+    p_ = cfg.path([cfg.entry], {cfg.exit}, avoid=adds, edge_ok=lambda x, y, lab: lab not in ("exc", "raise", "except")) if adds else []
+    key = f"{cm.key}:every-call-adds-a-bond"
+    if not adds or p_ is not None:
+        tests = [n for n in (p_ or []) if n.kind == "test"]
+        chk.fail("C01.R9", key, cm.where(tests[0].ast if tests else None), "Connectivity.connect (what the readers rebuild bonds with) can return without appending a bond" +
+                 (f" (when `{short(tests[0].ast.test, 50)}`)" if tests else "") + ": a second stored bond over a pair of atoms that is bonded already is dropped on read - "
+                 "n_bonds and the bond sequence of the object read back differ from what was stored")
+    else:
+        chk.ok("C01.R9", key, cm.where(), "every normal path through connect appends a new bond")
